@@ -37,6 +37,13 @@ def obligations(ctx):
         for (rsz, asz) in ((2, 1), (3, 1), (1, 3), (2, 0)):
             so = (1, 1, 0) if var == 0 else (0, 0, 0)
             obs.append(g.vec_ob(op, var, 2, rsz, asz, 0, so, avx=(rsz + asz) % 2, alias=1, pmode=1, tag="inplace/", timeout=600 if ctx.quick else 3000))
+    # in place on limb 0 only: same pointer, different strides, a single input limb zero-extended at another stride
+    for (op, var) in ((1, 0), (2, 0), (5, 0), (6, 0)):
+        for (rsz, so) in ((3, (3, 0, 0)), (1, (0, 2, 0))):
+            if op in (5, 6):
+                obs.append(g.vec_ob(op, var, 4, rsz, 1, 0, so, avx=rsz % 2, alias=4, pmode=1, tag="inplace/", timeout=600 if ctx.quick else 3000))
+            else:
+                obs.append(g.vec_ob(op, var, 4, rsz, 1, 0, so, avx=rsz % 2, alias=4, tag="inplace/"))
     # equal padded strides for every operand (res_sl == a_sl == b_sl == N+2: "same layout" fast paths must still respect the gaps and the extents)
     for (op, var) in g.PAIRS:
         for (rsz, asz, bsz) in ((2, 2, 2), (3, 1, 2), (1, 3, 1)):
